@@ -77,6 +77,26 @@ func isLetDig(c byte) bool {
 // Classify judges the argument of a MAIL (mail=true) or RCPT command: arg is
 // everything after "MAIL " / "RCPT " on the command line.
 func Classify(mail bool, arg string, f Flags) Result {
+	// A run of CRs (and blanks) at the end of the line can be read in two
+	// ways: as line-end noise that a parser trims, or - CR is not SMTP white
+	// space - as part of the last token. A line is definitely invalid only
+	// if it is under both readings; otherwise it is unspecified.
+	blanks := strings.TrimRight(arg, " \t")
+	if core := strings.TrimRight(blanks, " \t\r"); core != blanks {
+		a := classify(mail, core, f, true)
+		b := classify(mail, blanks, f, blanks != arg)
+		if a.Class == Invalid && b.Class == Invalid {
+			return a
+		}
+		res := Result{Class: Unspecified, Reasons: append([]string{"CR at the end of the line"}, append(a.Reasons, b.Reasons...)...)}
+		res.Mailboxes = append(append([]string(nil), a.Mailboxes...), b.Mailboxes...)
+		res.Mail, res.Rcpt = a.Mail, a.Rcpt
+		return res
+	}
+	return classify(mail, blanks, f, blanks != arg)
+}
+
+func classify(mail bool, arg string, f Flags, trimmed bool) Result {
 	var v verdicts
 	res := Result{}
 	prefix := "TO:"
@@ -87,9 +107,8 @@ func Classify(mail bool, arg string, f Flags) Result {
 		v.unsp("extra whitespace after the verb")
 		arg = t
 	}
-	if t := strings.TrimRight(arg, " \t\r"); t != arg {
+	if trimmed {
 		v.unsp("trailing whitespace")
-		arg = t
 	}
 	if len(arg) < len(prefix) || !strings.EqualFold(arg[:len(prefix)], prefix) {
 		v.inv("missing " + prefix)
